@@ -1354,7 +1354,60 @@ mod router_diff {
         }
         seq.len()
     }
+    /// the cache must be transparent: the same statement texts on a router with the query cache on
+    /// and on one without give the same answers (graph / vector families: NEIGHBORS, SIMILAR are cached)
+    fn transparent(stmts: &[String], tag: &str, dist: &mut Dist, hits: &mut Hits) -> usize {
+        let mut cached = QueryRouter::new();
+        cached.init_cache();
+        let plain = QueryRouter::new();
+        for (i, sql) in stmts.iter().enumerate() {
+            let run = |q: &QueryRouter| match guarded(AssertUnwindSafe(|| q.execute_parsed(sql).map_err(|e| e.to_string()))) {
+                Ok(Ok(x)) => format!("{x:?}"),
+                Ok(Err(_)) => "err".to_string(),
+                Err(p) => format!("panic {p}"),
+            };
+            let (c, p) = (run(&cached), run(&plain));
+            dist.hit("cached.graph_vector_stmt");
+            if c != p {
+                hits.push(
+                    "text-vs-direct-cache-on",
+                    &format!("{tag}: statement {i} {sql:?} with the query cache on -> {c}; without the cache -> {p}; statements so far: {:?}", &stmts[..=i]),
+                    json!({"trace": stmts[..=i].to_vec()}),
+                );
+                dist.hit("cached.differs.cache_on");
+                return i + 1;
+            }
+        }
+        stmts.len()
+    }
+
     pub fn run_cached(r: &mut Rng, n_scen: usize, dist: &mut Dist, hits: &mut Hits) -> usize {
+        let mut gtotal = 0usize;
+        {
+            let corpus: Vec<String> = [
+                "NODE CREATE person {name: 'a'}", "NODE CREATE person {name: 'b'}", "NODE CREATE person {name: 'c'}",
+                "EDGE CREATE 1 -> 2 : knows", "NEIGHBORS 1 OUTGOING", "EDGE CREATE 1 -> 3 : knows", "NEIGHBORS 1 OUTGOING",
+                "NEIGHBORS 3 INCOMING", "EMBED STORE 'k1' [1.0, 0.0]", "SIMILAR [1.0, 0.0] LIMIT 5", "EMBED STORE 'k2' [0.9, 0.1]",
+                "SIMILAR [1.0, 0.0] LIMIT 5", "EMBED DELETE 'k1'", "SIMILAR [1.0, 0.0] LIMIT 5",
+            ]
+            .iter()
+            .map(|x| x.to_string())
+            .collect();
+            gtotal += transparent(&corpus, "corpus graph/vector", dist, hits);
+            for _ in 0..(n_scen / 8).max(4) {
+                let mut v: Vec<String> = (0..4).map(|i| format!("NODE CREATE person {{name: 'n{i}'}}")).collect();
+                for _ in 0..r.range(8, 20) {
+                    let (x, y) = (r.range(1, 4), r.range(1, 4));
+                    v.push(match r.below(6) {
+                        0 | 1 => format!("EDGE CREATE {x} -> {y} : knows"),
+                        2 | 3 => format!("NEIGHBORS {x} {}", r.pick(&["OUTGOING", "INCOMING", "BOTH"])),
+                        4 => format!("EMBED STORE 'k{x}' [{}.0, {}.5]", x, y),
+                        _ => "SIMILAR [1.0, 0.5] LIMIT 3".to_string(),
+                    });
+                }
+                gtotal += transparent(&v, "random graph/vector", dist, hits);
+            }
+        }
         let pool = select_pool();
         let sel = |i: usize| pool[i].clone();
         let none_cond = M::Bin(2, a(100), Box::new(M::Atom(3))); // a = 777: matches nothing
@@ -1414,7 +1467,7 @@ mod router_diff {
             }
             total += run_seq(&seq, "random", r, dist, hits);
         }
-        total
+        total + gtotal
     }
 
     pub fn run(r: &mut Rng, n_scen: usize, dist: &mut Dist, hits: &mut Hits) -> usize {
